@@ -163,6 +163,8 @@ def cases_for(p, decl) -> list:
         # -1 and 0 are favourite 'not provided' markers: unless the declaration itself makes one of them the default (the documented
         # sentinel) they are ordinary out-of-range values
         dflt = float(p.DefaultValue) if isinstance(p.DefaultValue, (int, float)) else None
+        if dflt is not None and lo <= dflt <= hi and math.isfinite(dflt):
+            out.append(('declared_default', repr(float(dflt)), rat(float(dflt))))      # a figure equal to the default is a figure: accepted and used
         for label, x in (('minus_one', -1.0), ('zero', 0.0)):
             if x < lo and dflt != x and num(p.value) != x:      # (declared default or initial working value = the documented sentinel)
                 out.append((label, repr(x) if label == 'zero' else '-1', rat(x)))
